@@ -224,7 +224,23 @@ func (c *Client) ConsensusState(ctx context.Context) (*ctypes.ResultConsensusSta
 	return c.next.ConsensusState(ctx)
 }
 
+// ConsensusParams returns the verified consensus parameters at the given
+// height. If no height is provided, the parameters at the latest height of the
+// light client are returned: a full node answers a request without a height for
+// the height after its latest block, which no header can verify yet.
 func (c *Client) ConsensusParams(ctx context.Context, height *int64) (*ctypes.ResultConsensusParams, error) {
+	var latest *types.LightBlock
+	if height == nil {
+		// Update the light client and ask for the latest height it can verify.
+		l, err := c.updateLightClientIfNeededTo(ctx, nil)
+		if err != nil {
+			return nil, err
+		}
+		latest = l
+		latestHeight := l.Height
+		height = &latestHeight
+	}
+
 	res, err := c.next.ConsensusParams(ctx, height)
 	if err != nil {
 		return nil, err
@@ -238,10 +254,17 @@ func (c *Client) ConsensusParams(ctx context.Context, height *int64) (*ctypes.Re
 		return nil, errNegOrZeroHeight
 	}
 
-	// Update the light client if we're behind.
-	l, err := c.updateLightClientIfNeededTo(ctx, &res.BlockHeight)
-	if err != nil {
-		return nil, err
+	l := latest
+	if l != nil {
+		if res.BlockHeight != l.Height {
+			return nil, fmt.Errorf("params are for height %d, requested %d", res.BlockHeight, l.Height)
+		}
+	} else {
+		// Update the light client if we're behind.
+		l, err = c.updateLightClientIfNeededTo(ctx, &res.BlockHeight)
+		if err != nil {
+			return nil, err
+		}
 	}
 
 	// Verify hash.
@@ -607,7 +630,10 @@ func (c *Client) updateLightClientIfNeededTo(ctx context.Context, height *int64)
 		l, err = c.lc.VerifyLightBlockAtHeight(ctx, *height, time.Now())
 	}
 	if err != nil {
-		return nil, fmt.Errorf("failed to update light client to %d: %w", height, err)
+		if height == nil {
+			return nil, fmt.Errorf("failed to update light client to the latest height: %w", err)
+		}
+		return nil, fmt.Errorf("failed to update light client to %d: %w", *height, err)
 	}
 	return l, nil
 }
